@@ -238,8 +238,16 @@ func (h *history) deviations(r *report.Run, base []blockDigest) []dev {
 			}
 		}
 		out = append(out, dev{Kind: "seed", Seed: 0x9e3779b9}, dev{Kind: "seed", Seed: 0x7f4a7c15})
-		r.Extra["map_range_static_sites"] = float64(len(seenSite))
-		r.Extra["map_range_dynamic_occurrences"] = float64(len(h.mapSites))
+		if s, _ := report.Shard(); s == 0 {
+			r.Extra["map_range_static_sites"] = float64(len(seenSite))
+			r.Extra["map_range_dynamic_occurrences"] = float64(len(h.mapSites))
+			var names []string
+			for k := range seenSite {
+				names = append(names, k)
+			}
+			sort.Strings(names)
+			r.Extra["map_range_sites"] = names
+		}
 	} else {
 		r.Extra["map_hook"] = "unavailable in this build"
 	}
